@@ -287,7 +287,7 @@ def ct3d_cases(draw, max_side):
 
 
 def shards(tier):
-    n2, n3, per2, per3, side = (10, 4, 220, 160, 7) if tier == "quick" else (12, 4, 2500, 1500, 10)
+    n2, n3, per2, per3, side = (10, 4, 220, 160, 7) if tier == "quick" else (12, 4, 1200, 900, 10)
     out = []
     for i in range(n2):
         out.append(("ct2d#%d" % i, lambda ctx: drive_hypothesis(ctx, body_ct2d, ct2d_cases(side), per2)))
